@@ -140,6 +140,21 @@ PROPS = {
                      "is_valid_token / is_valid_user_token are external in unit sessions (their contracts are proved in unit store)",
                      "sessions are modelled abstractly in the accounting lemmas: a map from session ids to the selected database"],
     ),
+    "C06": dict(
+        units=["snapshot"],
+        undecided=["the whole-history half for INCREMENTAL snapshots: that the image produced by the write plan loads back to the snapshotted state needs the cross-snapshot "
+                   "invariant (every persisted key has exactly one record, at its remembered key_disk_addr, inside the key file; no stale records) - it is a "
+                   "precondition here (mem_slots_inside), not an established invariant; the bounded sweep family `snapshot` exercises it on the real code",
+                   "restart / database id / conflict strategy: write_metadata_file and load_db_metadata_from_disk_or_empty are trusted externals",
+                   "file-system glue: get_key_file_append_mode / get_values_file_append_mode / get_key_write_mode (rename, remove, open) are trusted externals",
+                   "get_keys_to_update / get_keys_by_filter (iterator pipeline) has a trusted specification",
+                   "torn or truncated files (C11): the loader is verified for well-formed images only"],
+        assumptions=["disk model: BufWriter<File> in append mode takes every write whole (LogStream); write_at inside the file replaces exactly those bytes (RandFile); "
+                     "File::read is short only at EOF; a file never exceeds i64::MAX bytes",
+                     "the in-place handle and the append handle name the same key file (get_key_write_mode's trusted contract; R6 passes the append handle explicitly)",
+                     "UTF-8: String::as_bytes / str::from_utf8 are inverse on valid texts (axiom_utf8_roundtrip); integer codecs are vstd's little-endian specs",
+                     "64-bit target (global size_of usize == 8)", "fewer than 2^32 keys per database (the changed-keys counter is a u32)"],
+    ),
     "C07": dict(
         units=["election"],
         undecided=["the protocol half of the statement: that after any interleaving of candidacies, acknowledgements and set-primary messages between 2-3 nodes exactly one node "
@@ -173,8 +188,8 @@ PROPS = {
         assumptions=["Change::new stamps the resolving change with the wall clock (any u64)"],
     ),
     "C10": dict(
-        units=["store", "consensus", "security", "ids", "oplog", "pending", "parser", "sessions", "http", "election"],
-        reachable={"http": ["process_commands"], "election": ["election_eval", "start_election", "start_new_election", "election_win", "Databases::get_role", "Databases::is_eligible", "Databases::is_primary", "From<usize>@ClusterRole::from"], "store": STORE_FNS, "security": SECURITY_FNS, "pending": ["ReplicationMessage::new", "ReplicationMessage::ack", "ReplicationMessage::replicated", "ReplicationMessage::is_full_acknowledged",
+        units=["store", "consensus", "security", "ids", "oplog", "pending", "parser", "sessions", "http", "election", "snapshot"],
+        reachable={"snapshot": ["NodeDrive::storage_data_disk", "write_value", "write_key", "update_key", "write_new_key_value", "get_key_disk_size", "create_db_from_file_name", "ValueStatus::to_le_bytes"], "http": ["process_commands"], "election": ["election_eval", "start_election", "start_new_election", "election_win", "Databases::get_role", "Databases::is_eligible", "Databases::is_primary", "From<usize>@ClusterRole::from"], "store": STORE_FNS, "security": SECURITY_FNS, "pending": ["ReplicationMessage::new", "ReplicationMessage::ack", "ReplicationMessage::replicated", "ReplicationMessage::is_full_acknowledged",
                    "ReplicationMessage::count_replication", "ReplicationMessage::count_acknowledged", "ReplicationMessage::get_copy", "Databases::register_pending_opp",
                    "Databases::acknowledge_pending_opp", "Databases::get_pending_opp_copy"],
                    "parser": PARSER_FNS, "sessions": ["Database::inc_connections", "Database::dec_connections", "Database::connections_count", "release_previous_db",
